@@ -26,7 +26,7 @@ COMPONENTS = {"real": ["pyjelly serializers (stream_frames, flat_stream_to_frame
                        "stall_after faults", "frame accounting by simkit.refdec"]}
 ASSUMPTIONS = ["GraphStream: only the two unambiguous write-side clauses are enforced (look-ahead of one quad is how "
                "graphs are delimited)", "blocking sources only"]
-PROBES = ["explicit_flow_runs", "raw_sink_runs", "write_runs", "stall_runs", "loop_runs", "stall_fired", "stall_partial_next_frame", "frames_ge3",
+PROBES = ["unspecified_logical_runs", "explicit_flow_runs", "raw_sink_runs", "write_runs", "stall_runs", "loop_runs", "stall_fired", "stall_partial_next_frame", "frames_ge3",
           "frontend_raw", "frontend_buffered", "physical_GRAPHS", "frame_size_1"]
 SHRINK_LISTS = ["ops", "items"]
 
@@ -55,7 +55,9 @@ def generate(rng, run, tier):
             integration=integration, physical=physical, logical=1 if physical == "TRIPLES" else 2, delimited=True,
             frame_size=rng.choice([1, 1, 2, 3, 4, 5, 8]), max_names=mn, max_prefixes=mp, max_datatypes=md,
             generalized=flags["generalized"], rdf_star=flags["rdf_star"], entry=entry)
-        if kind == "write" and physical != "GRAPHS" and rng.random() < 0.3:
+        if kind == "write" and entry in ("frames_gen", "flat_frames", "flat_file") and rng.random() < 0.25:
+            cfg["logical"] = 0      # the flat logical type is then inferred; frame_size must still be honoured
+        if kind == "write" and physical != "GRAPHS" and cfg["logical"] != 0 and rng.random() < 0.3:
             # frame size configured through an explicit flow object; options.frame_size keeps its default
             cfg["flow"] = rng.choice(["FlatTriples" if physical == "TRIPLES" else "FlatQuads", "Bounded"])
             cfg["options_frame_size"] = 250
@@ -160,6 +162,8 @@ def write_side(plan, sim):
     sim.count("write_runs")
     if cfg.get("flow"):
         sim.count("explicit_flow_runs")
+    if cfg["logical"] == 0:
+        sim.count("unspecified_logical_runs")
     if cfg["entry"] == "flat_file" and plan.get("sink") == "raw":
         sim.count("raw_sink_runs")
     if cfg["frame_size"] == 1:
@@ -211,8 +215,16 @@ def write_side(plan, sim):
         elif e[0] == "frame":
             handed += e[1]
             frames_done += 1
+            last_items = [i for i, (f, _) in enumerate(ref.item_pos) if f == frames_done - 1]
+            if graphs and last_items and pulled > last_items[-1] + 1 and pulled < len(stmts):
+                # delimiting graphs needs a look-ahead of one statement, not more
+                v.append({"clause": "C11.input_overrun", "sig": {"entry": cfg["entry"], "physical": "GRAPHS",
+                                                              "integration": cfg["integration"]},
+                          "msg": f"frame {frames_done - 1} ends with statement {last_items[-1]} but input was consumed "
+                                 f"up to statement {pulled} when it was handed over (GraphStream: one statement of "
+                                 f"look-ahead is inherent, the rest is buffering)"})
+                break
             if not graphs:
-                last_items = [i for i, (f, _) in enumerate(ref.item_pos) if f == frames_done - 1]
                 if last_items and pulled != last_items[-1]:
                     v.append({"clause": "C11.input_overrun", "sig": {"entry": cfg["entry"]},
                               "msg": f"frame {frames_done - 1} ends with statement {last_items[-1]} but input was "
